@@ -31,6 +31,7 @@ import os
 import re
 import time
 import unicodedata
+import zlib
 
 from .. import core, tla
 
@@ -40,6 +41,8 @@ CH = {1: '\n', 2: ' ', 3: '-', 4: '5', 5: 'A', 6: '_', 7: 'a', 8: 'b', 9: '\U000
 CHNAME = {1: 'NL', 2: 'SP', 3: 'HY', 4: '5', 5: 'A', 6: '_', 7: 'a', 8: 'b', 9: 'AS'}
 SIGMA = tuple(range(1, 10))
 MINOR = ("Cc", "Zs", "Pd", "Nd", "Lu", "Pc", "Ll", "Ll", "So")     # must equal Regex!Minor
+TLC_WORKERS = 8
+PROCS = 8
 RE_FLAGS = {'': 0, 's': re.S, 'm': re.M, 'i': re.I, 'x': re.X}
 
 
@@ -321,7 +324,7 @@ def class_worker(job):
                 bag.fail(class_features(cl, ver, mode, den, obs, pinned), dict(case0, mode=mode),
                          names(den), obs if isinstance(obs, tuple) else names(obs),
                          f'{text} ({mode}, XSD {ver}) should match exactly {{{names(den)}}}')
-        if fn_mod and (hash(text) % fn_mod == 0):
+        if fn_mod and (zlib.crc32(text.encode()) % fn_mod == 0):
             for version in ('2.0', '3.1'):
                 got = set()
                 err = None
@@ -420,3 +423,39 @@ def run_classes(chk: core.Check, totals: dict) -> None:
         chk.add('traces_validated_against_impl', len(states))
         print(f'  RegexClass/{name}: states={len(g.states)} pinned-model-refuted={refuted} '
               f'replay={time.time() - t0:.1f}s', flush=True)
+
+
+def collect(chk: core.Check, results, totals: dict) -> None:
+    for stats, fails, odis, n_odis, samples in results:
+        for k, v in stats.items():
+            if k in ('evaluations', 'second_oracle_evaluations'):
+                chk.add(k, v)
+            elif k == 'nontrivial':
+                chk.add('distinct_nontrivial', v)
+            else:
+                totals[k] = totals.get(k, 0) + v
+        totals['oracle_disagreements'] = totals.get('oracle_disagreements', 0) + n_odis
+        for d in odis:
+            totals.setdefault('oracle_examples', []).append(d)
+        for sm in samples:
+            chk.sample(sm)
+        for feat, cnt, case, exp, obs, what in fails:
+            chk.fail(feat, case, exp, obs, what=what)
+            if cnt > 1:
+                fj = core.jsonable(feat)
+                for idx, kf in enumerate(chk.known):
+                    if core.match_pattern(kf['fingerprint'], fj):
+                        chk.known_hits[idx] = chk.known_hits.get(idx, 0) + cnt - 1
+                        break
+                else:
+                    totals['more_unlisted_failures'] = totals.get('more_unlisted_failures', 0) + cnt - 1
+
+
+def run(chk: core.Check) -> None:
+    core.setup_repo_path()
+    totals: dict = {}
+    run_classes(chk, totals)
+    chk.coverage['details'] = {k: v for k, v in totals.items() if k != 'oracle_examples'}
+    if totals.get('oracle_disagreements'):
+        raise tla.MachineryError(f"specification and second oracle disagree on {totals['oracle_disagreements']} "
+                                 f"vectors, e.g. {totals['oracle_examples'][:3]}")
